@@ -929,10 +929,11 @@ def tie_case(ctx: C.Ctx, case: Dict[str, Any], data: bytes, layout: Dict[str, An
         ctx.branch("hyp:tablelists:" + r[q])
         if r[q] != "true":
             ctx.disagree("q.tablelists", inp, "true", r[q])
-    # hypothesis of C02_chain_checked: the file's sections form a chain of plain / hybrid revisions
+    # hypothesis of C02_chain_checked: the file's sections form a chain of plain / hybrid revisions (circular /Prev of the
+    # oldest revision included)
     selfprev = any(p.get("self_prev") for p in case["plans"])
     ctx.branch("hyp:chain:" + r["q.chain"].replace(" ", ",") + (":self-prev" if selfprev else ""))
-    if r["q.chain"] != "true true true" and not selfprev:
+    if r["q.chain"] != "true true true":
         ctx.disagree("q.chain", inp, "true true true", r["q.chain"])
     try:
         with Watchdog(30.0):
